@@ -238,6 +238,12 @@ def explore(chk, exe, h5, count, quick, tag):
         c.update(cur=[0.002], volt=7.0e5, restart_volt=1.4e6, renorm=-1)
         if c["imp"] == "none":
             c["imp"] = "pp"
+    if tag == "main" and len(cfgs) > 3:
+        # two bunches on an ODD padded length without rounding to a power of two (rows of the CSR spectrum record)
+        c = cfgs[2]
+        c.update(n=17, pad=3, roundpad=0, cur=[0.002, 0.001], h5save=1)
+        if c["imp"] == "none":
+            c["imp"] = "pp"
     for cfg in cfgs:
         if rng.random() < 0.6 and not cfg.get("witness"):
             cfg["h5save"] = 1          # store every phase space so that every record can be checked
